@@ -22,11 +22,13 @@ from .common import SCRATCH, Check, chunks, workers
 
 FILES = {("r1", "a.txt"): "r1a", ("r1", "b"): "r1b", ("r1", "sub", "c.txt"): "r1c", ("r2", "a.txt"): "r2a",
          ("r2", "d.txt"): "r2d", ("secret.txt",): "SECRET", ("r1x", "a.txt"): "r1x-a", ("r1", "sub.txt"): "r1subtxt"}
-SEGS = '{"a.txt", "a", "b", "sub", "c.txt", "d.txt", "secret.txt", "..", ".", "", "r1", "r2", "r1x", "sub.txt", "@DOTS1@", "@DOTS2@", "@SLASH@secret.txt"}'
+SEGS = '{"a.txt", "a", "b", "sub", "c.txt", "d.txt", "secret.txt", "..", ".", "", "r1", "r2", "r1x", "sub.txt", "@DOTS1@", "@DOTS2@", "@SLASH@secret.txt", "@LONG@", "@NUL@a.txt"}'
 SEGS_FEW = '{"a.txt", "sub", "secret.txt", "..", ".", "", "r1", "r1x", "@DOTS1@", "@SLASH@secret.txt"}'
 # look-alike characters that compatibility normalisation folds into path syntax; to the
 # model they are ordinary (non-existing) file names
-LOOKALIKE = {"@DOTS1@": "\u2024\u2024", "@DOTS2@": "\uff0e\uff0e", "@SLASH@": "\uff0f"}
+LOOKALIKE = {"@DOTS1@": "\u2024\u2024", "@DOTS2@": "\uff0e\uff0e", "@SLASH@": "\uff0f",
+             # names the file system itself refuses: longer than NAME_MAX, with a NUL byte
+             "@LONG@": "n" * 300, "@NUL@": "\x00"}
 
 
 def build_tree(base: Path) -> None:
@@ -80,7 +82,7 @@ def probe(rec: dict, base: Path, loaders_cache: dict) -> list[tuple[str, dict]]:
         loaders_cache[key] = make_loaders(base, rec["roots"], rec["ext"])
     fails = []
     want = {"kind": "ok", "text": f"content:{rec['content']}"} if rec["found"] else {"kind": "notfound"}
-    quotable = "'" not in name and "\\" not in name and "\n" not in name
+    quotable = "'" not in name and "\\" not in name and "\n" not in name and all(ord(ch) >= 8 for ch in name)   # (a literal cannot hold control characters below U+0008)
     for lname, loader in loaders_cache[key].items():
         env = Environment(loader=loader)
         tagenv = Environment(loader=ChoiceLoader([DictLoader({}), loader]))
